@@ -5,6 +5,7 @@ import bisect
 import copy
 
 import common as C
+import fault_probes as FP
 import engine_common as E
 import engine_extract
 import engine_impl as EI
@@ -401,6 +402,9 @@ def stop_dispatch_probes(rng, n):
     return out
 
 
+PROBE_JUDGES = [FP.nothing_left_behind, FP.no_document_after_stop]
+
+
 def run(ctx, model=True):
     res = E.run_property(ctx, "C41", oracle, gen=gen, quick=120, thorough=3000, model=model)
     for sc in stop_dispatch_probes(ctx.rng, ctx.budget(12, 150)):
@@ -413,6 +417,7 @@ def run(ctx, model=True):
             res.violations.append(C.Violation("monitor-event-after-RunStop:update-during-stop-dispatch", f"implementation-only probe: a signal update fired while the RunStop was being dispatched produced {late[0]} after the RunStop", sc))
         if o["subs_left"].get("s1", 0) != 0:
             res.violations.append(C.Violation("subscription-left-on-device:after-stop-dispatch-probe", f"implementation-only probe: {o['subs_left']} engine subscription(s) left on s1", sc))
+    FP.run_probes(ctx, res, PROBE_JUDGES, ["close"], 40, 800)
     res.rule += " | C41 generator: monitor / unmonitor of s1 placed anywhere in 1-2 (keyed) runs, run end with and without unmonitor, follow-up run, signal updates with unique values at 30-100% of all arrivals (and at the moment the state becomes 'paused', implementation only), 0-3 pause / suspend(+release) / abort / stop / halt requests; 30% of the scenarios contain suspension requests; 15% generic engine scenarios. Updates cannot land while paused through the shared script (arrivals only): those are delivered from the state hook"
     return res
 
@@ -422,6 +427,8 @@ def run_impl_only(ctx):
 
 
 def replay(ctx, data):
+    if FP.is_probe(data):
+        return FP.replay_probe(ctx, data, PROBE_JUDGES)
     sc = data.get("case") or {}
     if sc.get("doc_triggers"):
         res = C.Result()
